@@ -286,6 +286,8 @@ class PrecipitateModel (PrecipitateBase):
         #Setup interfacial composition
         if self.numberOfElements == 1:
             self.pData.xEqAlpha[self.pData.n], self.pData.xEqBeta[self.pData.n] = self._createLookupBinary(self.pData.temperature[self.pData.n])
+            #Y was copied before the equilibrium compositions were known (they are needed for the second impingement rate function)
+            Y.xEqAlpha[0], Y.xEqBeta[0] = self.pData.xEqAlpha[self.pData.n], self.pData.xEqBeta[self.pData.n]
         else:
             self.PSDXalpha = [None for p in range(len(self.phases))]
             self.PSDXbeta = [None for p in range(len(self.phases))]
